@@ -170,7 +170,7 @@ def popped_row_untouched_rule(chk, P):
         nm = callee_name(t)[0]
         if any(nm.endswith(m) or m in nm for m in MUT):
             a = [canon(x) for x in P.call_arg_terms(gr, bb)]
-            if a and a[0].startswith(ROW):
+            if a and (a[0].startswith(ROW) or a[0].startswith("mut!(" + ROW)):   # an in-place write makes the row read `mut!(row via ..)`
                 hits.append("%s(%s)" % (nm.split("::")[-1], a[0][:80]))
     # the local(s) holding the popped row: assigned from Option::unwrap(Vec::pop(self.cache))
     holders = set()
